@@ -409,3 +409,56 @@ type NamePP struct {
 
 func (p *NamePP) Naming() string { return "verif.namepp" }
 func (p *NamePP) Order() int     { return 100 }
+
+// SubsetPP is a user post-processor that answers PostProcessProperties with only the properties it
+// handled itself (those of its own tag - usually none): what it returns says nothing about which
+// properties the processors after it get to see.
+type SubsetPP struct {
+	processors.DefaultInstantiationAwareComponentPostProcessor
+	Ord  int
+	Tag  string
+	Seen int
+}
+
+func (p *SubsetPP) Naming() string { return "verif.subsetpp" }
+func (p *SubsetPP) Order() int     { return p.Ord }
+func (p *SubsetPP) PostProcessAfterInstantiation(c any, name string) (bool, error) {
+	return true, nil
+}
+func (p *SubsetPP) PostProcessProperties(props []*component_definition.Property, c any, name string) ([]*component_definition.Property, error) {
+	handled := []*component_definition.Property{}
+	for _, pr := range props {
+		if pr.Tag == p.Tag {
+			handled = append(handled, pr)
+			p.Seen++
+		}
+	}
+	return handled, nil
+}
+
+// WidenPP is a user post-processor that widens the qualifier set of every qualified wire point at run
+// time through Property.AddArg, spelling the argument the way tags do ("qualifier").
+type WidenPP struct {
+	processors.DefaultInstantiationAwareComponentPostProcessor
+	Add     string
+	Widened int
+}
+
+func (p *WidenPP) Naming() string { return "verif.widenpp" }
+func (p *WidenPP) Order() int     { return -500 } // ahead of the built-in processors
+func (p *WidenPP) Priority()      {}
+func (p *WidenPP) PostProcessAfterInstantiation(c any, name string) (bool, error) {
+	return true, nil
+}
+func (p *WidenPP) PostProcessProperties(props []*component_definition.Property, c any, name string) ([]*component_definition.Property, error) {
+	for _, pr := range props {
+		if pr.Tag == "wire" && pr.Args().Has(component_definition.ArgQualifier) {
+			if vals, _ := pr.Args().Find(component_definition.ArgQualifier); len(vals) == 1 && vals[0] == "" {
+				continue // a bare "qualifier" argument is left alone
+			}
+			pr.AddArg("qualifier", p.Add)
+			p.Widened++
+		}
+	}
+	return nil, nil
+}
